@@ -52,6 +52,8 @@ SkB(n) ==
   ELSE UNION {{[k |-> "cmp", t |-> "bool", op |-> o, l |-> x, r |-> y] : o \in CmpOps, x \in SkI(i), y \in SkI(n - 1 - i)} : i \in 0..(n - 1)}
        \cup UNION {{[k |-> "bool", t |-> "bool", op |-> o, l |-> x, r |-> y] : o \in BoolBin, x \in SkB(i), y \in SkB(n - 1 - i)} : i \in 0..(n - 1)}
        \cup {[k |-> "not", t |-> "bool", e |-> x] : x \in SkB(n - 1)}
+       \* `not` over an int expression tests it against 0 (truthiness): `not n % 2`
+       \cup {[k |-> "not", t |-> "bool", e |-> x] : x \in SkI(n - 1)}
        \cup UNION {UNION {{[k |-> "tern", t |-> "bool", c |-> c, a |-> x, b |-> y] : c \in SkB(i), x \in SkB(j), y \in SkB(n - 1 - i - j)}
                           : j \in 0..(n - 1 - i)} : i \in 0..(n - 1)}
 
@@ -186,7 +188,7 @@ Eval(x, env) ==
     [] x.k = "bool" ->
          (LET L == Eval(x.l, env)  R == Eval(x.r, env) IN
           IF ~L.ok \/ ~R.ok THEN Undef ELSE IF x.op = "and" THEN Val(L.v /\ R.v) ELSE Val(L.v \/ R.v))
-    [] x.k = "not" -> (LET X == Eval(x.e, env) IN IF ~X.ok THEN Undef ELSE Val(~X.v))
+    [] x.k = "not" -> (LET X == Eval(x.e, env) IN IF ~X.ok THEN Undef ELSE IF x.e.t = "int" THEN Val(X.v = 0) ELSE Val(~X.v))
     [] x.k = "tern" ->
          (LET C == Eval(x.c, env) IN
           IF ~C.ok THEN Undef
